@@ -295,19 +295,41 @@ theorem flush_escText (ts : List Tok) (s : Str) : flush ts (escText s) = some (t
 
 theorem flush_nil (ts : List Tok) : flush ts [] = some ts := by simp [flush]
 
+theorem escAttr_eq_nil {s : Str} : escAttr s = [] ↔ s = [] := by
+  cases s with
+  | nil => simp [escAttr]
+  | cons c cs => unfold escAttr; split <;> (try split) <;> (try split) <;> (try split) <;> simp
+
+theorem flush_escAttr (ts : List Tok) (s : Str) : flush ts (escAttr s) = some (ts ++ textTok s) := by
+  unfold flush textTok
+  by_cases h : s = []
+  · subst h; simp [escAttr]
+  · have : escAttr s ≠ [] := fun e => h (escAttr_eq_nil.1 e)
+    simp [this, h, decode_escAttr]
+
+theorem lt_not_mem_escOf (q : Bool) (s : Str) : '<' ∉ escOf q s := by
+  cases q
+  · exact lt_not_mem_escText s
+  · exact (lt_quot_not_mem_escAttr s).1
+
+theorem flush_escOf (q : Bool) (ts : List Tok) (s : Str) : flush ts (escOf q s) = some (ts ++ textTok s) := by
+  cases q
+  · exact flush_escText ts s
+  · exact flush_escAttr ts s
+
 
 mutual
 theorem run_render (x : X) (h : WF x) (ts : List Tok) (acc : Str) (ts' : List Tok)
     (hf : flush ts acc = some ts') :
     run (ts, .text acc) (render x) = (ts' ++ tokens (strip x), .text []) := by
   match x, h with
-  | .node tag attrs trail text kids, h =>
+  | .node tag attrs trail qesc text kids, h =>
     obtain ⟨hopen, hkids⟩ := h
     simp only [render, strip, tokens]
     rw [run_append, run_open ts acc tag attrs trail hopen ts' hf,
-      run_append, run_text _ [] (escText text) (lt_not_mem_escText text)]
+      run_append, run_text _ [] (escOf qesc text) (lt_not_mem_escOf qesc text)]
     simp only [List.nil_append]
-    have hfl := flush_escText (ts' ++ [Tok.open tag (attrs.map fun a => (a.k, a.v))]) text
+    have hfl := flush_escOf qesc (ts' ++ [Tok.open tag (attrs.map fun a => (a.k, a.v))]) text
     -- kids, then the close tag
     cases kids with
     | nil =>
@@ -446,8 +468,8 @@ theorem parseXml_render (x : X) (h : WF x) : parseXml (render x) = some (strip x
 -- non-vacuity: a concrete hostile element satisfies WF and round-trips by evaluation
 def demo : X :=
   .node "UAObject".toList
-    [⟨[' '], "NodeId".toList, "ns=1;s=a\"b<&".toList⟩, ⟨[' ', ' '], "BrowseName".toList, "1:q".toList⟩] [' ']
-    [] (.cons (.node "DisplayName".toList [] [] "a<b & c>".toList .nil) .nil)
+    [⟨[' '], "NodeId".toList, "ns=1;s=a\"b<&".toList⟩, ⟨[' ', ' '], "BrowseName".toList, "1:q".toList⟩] [' '] false
+    [] (.cons (.node "DisplayName".toList [] [] false "a<b & c>".toList .nil) .nil)
 
 theorem demo_WF : WF demo := by
   simp only [demo, WF, WFS, OpenOK, NameOK, PAttr.OK, and_true]
